@@ -1140,8 +1140,10 @@ class Evaluator:
             return FALL
         # loop over a symbolic iterable: everything assigned inside is unknown afterwards
         self._havoc_targets(st, fr, 'loop over symbolic iterable at line %d' % st.lineno)
-        if tname is not None and _mutates_name(st.body, tname):
-            # elements mutated in place: the iterated container is unknown afterwards as well
+        tnames = [tname] if tname is not None else [n.id for n in ast.walk(st.target) if isinstance(n, ast.Name)]
+        if any(_mutates_name(st.body, tn_) for tn_ in tnames):
+            # elements mutated in place (also through a tuple target: `for row, node in zip(rows, nodes): row.append(..)`):
+            # the iterated containers are unknown afterwards as well
             for n in ast.walk(st.iter):
                 if isinstance(n, ast.Name) and n.id in fr.env:
                     fr.env[n.id] = T.opaque('elements mutated in a loop at line %d' % st.lineno)
@@ -1173,6 +1175,25 @@ class Evaluator:
         """`for row in rows: [temporaries]; row.append(E)` or `row[K] = E` (constant K) over a symbolic list of rows rewrites
         every row in place - visible through every name that shares the row objects (a shallow copy of the list)."""
         body = st.body
+        partner = None
+        if not st.orelse and body and isinstance(st.target, ast.Tuple) and len(st.target.elts) == 2 \
+                and all(isinstance(x, ast.Name) for x in st.target.elts) and isinstance(st.iter, ast.Call) \
+                and isinstance(st.iter.func, ast.Name) and st.iter.func.id == 'zip' and len(st.iter.args) == 2 and not st.iter.keywords \
+                and all(isinstance(a, ast.Name) and a.id in fr.env for a in st.iter.args):
+            # `for row, x in zip(rows, xs): row.append(f(x))` where rows was built as [... for x in xs]: the second target is
+            # the element the row was made from
+            rows_v, other_v = fr.env[st.iter.args[0].id], fr.env[st.iter.args[1].id]
+            if T.is_op(rows_v, 'MAP') and rows_v[5] == T.TRUE and rows_v[6] == T.const('list') and not T.is_op(other_v, 'ITER'):
+                if rows_v[4] == other_v:
+                    partner = (st.target.elts[1].id, rows_v[2])
+                elif T.is_op(other_v, 'MAP') and other_v[2] == rows_v[2] and other_v[4] == rows_v[4] and other_v[5] == T.TRUE \
+                        and other_v[6] == T.const('list'):
+                    # both are comprehensions over one and the same source (the evaluator composes a comprehension over a
+                    # comprehension): the partner element is the other comprehension's body for the same item
+                    partner = (st.target.elts[1].id, other_v[3])
+                if partner is not None:
+                    st = ast.For(target=st.target.elts[0], iter=st.iter.args[0], body=st.body, orelse=[])
+                    it = rows_v
         if st.orelse or not body or not isinstance(st.target, ast.Name) or not isinstance(st.iter, ast.Name) \
                 or st.iter.id not in fr.env:
             return False
@@ -1199,6 +1220,8 @@ class Evaluator:
             return False
         saved = dict(fr.env)
         fr.env[tname] = elem
+        if partner is not None:
+            fr.env[partner[0]] = partner[1]
         for s_ in body[:-1]:
             r = self.stmt(s_, fr)
             if r is not FALL:
